@@ -319,6 +319,10 @@ func (r *Run) raceAudit(cov Coverage) {
 			lg, _ := os.ReadFile(e.Log)
 			r.Violation("data-race "+e.Pkg, "the race detector reported a data race in the free-running audit of "+e.Pkg+":\n"+firstLines(string(lg), 60), map[string]any{"audit": e.Pkg, "log": e.Log})
 			summary = "DATA RACE reported"
+		case 124, 137:
+			// the stress bodies did not return (./check kills the audit after a generous wall-clock limit). A free-running
+			// hang is no verdict of this family: it is recorded, and the controlled exploration that follows decides.
+			summary = "NO VERDICT: the free-running bodies did not return within the wall-clock limit; " + firstLines(summary, 2)
 		case 67:
 			r.Violation("free-running mutual exclusion "+e.Pkg, summary, map[string]any{"audit": e.Pkg})
 		default:
